@@ -2468,8 +2468,8 @@ class ParserFromRuntype implements BeffParser<any> {
   describe(): string {
     const ctx: DescribeContext = {
       activeRefs: new Set(),
-      definitions: {},
-      refCounts: {},
+      definitions: Object.create(null),
+      refCounts: Object.create(null),
       visitedRefs: new Set(),
     };
     collectDescribeRefs(this._runtype, ctx);
